@@ -370,6 +370,18 @@ def run_tree(ctx, c, tree, case, feats):
             vf.add('kept-import.wrong-target')
         else:
             removed_paths.append(edges[key][0])
+    # ---- kept imports keep their cascade order among themselves (the order in which a depth-first expansion meets their edges)
+    if len(kept) > 1 and not problems:
+        first_seen = {}
+        for pos, e in enumerate(full):
+            for j in range(1, len(e[4]) + 1):
+                pth = e[4][:j]
+                key = (pth[-1][0], nm(tuple(m for _, m in pth if m)))
+                first_seen.setdefault(key, (pos, j))
+        order = [first_seen.get((t, nm(st))) for t, st in kept]
+        if None not in order and order != sorted(order):
+            problems.append('kept @imports are not in cascade order: %s' % [t for t, _ in kept][:6])
+            vf.add('kept-imports.order')
     # ---- the expanded rules: full expansion minus the subtrees of kept edges, same order, same media, same absolute URLs
     def under_removed(path):
         return any(path[: len(rp)] == rp for rp in removed_paths)
